@@ -369,6 +369,17 @@ def rule_strip(ctx, res):
               '{}'.format(sorted(names) if names is not UNKNOWN else names),
               'stripped names are not exactly _init/_update/_update60/_draw: '
               '{}'.format(names))
+    # decided by evaluation when the function can be followed; the statement
+    # forms below are the fallback
+    from . import c14eval
+    evaluated = c14eval.report(ctx, res)
+    w = model.func(B + ':RequireWalker._walk_FunctionCall')
+    if evaluated:
+        src = ast.unparse(w.node)
+        res.check("use_game_loop" in src and 'use_game_loop = False' in src,
+                  'R-C14-strip', w.qual, 'use_game_loop defaults to false',
+                  '', 'default of use_game_loop changed', w.loc)
+        return
     from .. import norm
     from ..absint.symbody import SymBody
     u = ast.unparse
@@ -467,6 +478,7 @@ def rule_strip(ctx, res):
                   'consistent-polarity={}'.format(top, typ, byname, g_ok, pol),
                   g.module.loc(c))
     # token-range form of the strip: half-open [start_pos, end_pos)
+    n_range = 0
     for (g, c) in norm.region_nodes(ctx, f):
         if isinstance(c, ast.Compare) and len(c.ops) == 2 and \
                 'start_pos' in ast.unparse(c) and 'end_pos' in ast.unparse(c):
@@ -476,6 +488,7 @@ def rule_strip(ctx, res):
             neg = isinstance(getattr(getattr(c, '_parent', None), '_parent',
                                      None), ast.UnaryOp) or \
                 'not any' in ast.unparse(_stmt(c))
+            n_range += 1
             res.check(ok and neg, 'R-C14-strip', q,
                       'dropped token range is [start_pos, end_pos)',
                       'tokens of a stripped statement, and only those, are '
@@ -488,11 +501,16 @@ def rule_strip(ctx, res):
                 'start_pos' in ast.unparse(c.args[0]) and \
                 'end_pos' in ast.unparse(c.args[1]):
             # positions collected as range(start_pos, end_pos): half-open too
+            n_range += 1
             res.holds('R-C14-strip', q,
                       'dropped token range is [start_pos, end_pos)',
                       'range(start_pos, end_pos)', g.module.loc(c))
+    if n_range == 0:
+        res.undecided('R-C14-strip', q, 'dropped token range',
+                      'neither evaluation nor a recognised token-range test '
+                      '(start_pos <= i < end_pos, range(start_pos, end_pos)): '
+                      'which tokens survive the strip is not decided', f.loc)
     # the option comes from the require() call's option table
-    w = model.func(B + ':RequireWalker._walk_FunctionCall')
     src = ast.unparse(w.node)
     res.check("use_game_loop" in src and 'use_game_loop = False' in src,
               'R-C14-strip', w.qual, 'use_game_loop defaults to false', '',
